@@ -634,15 +634,15 @@ func (rule *RuleExpression) checkIfCondition(str *String, workflowKey string) {
 		p := NewExprParser()
 		l := NewExprLexer(src)
 		expr, err := p.Parse(l)
-		if err == nil && l.Offset() < len(src) {
+		if off := l.Offset(); err == nil && off < len(src) {
 			// The condition itself contains }} so the lexer stopped before the end of the condition
-			off := l.Offset() - 2
-			bol := strings.LastIndexByte(src[:off], '\n') + 1
+			pre := strings.TrimSuffix(src[:off], "}}")
+			bol := strings.LastIndexByte(pre, '\n') + 1
 			err = &ExprError{
 				Message: "unexpected \"}}\" in \"if\" condition. \"}}\" is only available for closing ${{ }} placeholder",
-				Offset:  off,
-				Line:    strings.Count(src[:off], "\n") + 1,
-				Column:  off - bol + 1,
+				Offset:  len(pre),
+				Line:    strings.Count(pre, "\n") + 1,
+				Column:  utf8.RuneCountInString(pre[bol:]) + 1,
 			}
 		}
 		if err != nil {
